@@ -1427,8 +1427,12 @@ def rule_R24_inline(unit, rel, text, ctx):
                 raise Unsupported('R24: inlining of %s did not terminate' % name)
             mask = code_mask(out)
             call_rx = (r'(?<![\w:])(?:\w+::)*%s::%s\s*\(' % (re.escape(qual), re.escape(fname))) if qual else (r'(?<![\w])%s\s*\(' % re.escape(name))
+            # a method of the same name that the contract file's own model defines (`state.drop_sink(..)`): only calls on `self` or a
+            # field path of it are calls of the repository helper
+            model_has = (not qual) and re.search(r'\bfn\s+%s\b' % re.escape(fname), getattr(unit, 'tmpl_text', '') or '') is not None
             mm = next((m for m in re.finditer(call_rx, out)
-                       if mask[m.start()] and not re.search(r'\bfn\s+$', out[:m.start()])), None)
+                       if mask[m.start()] and not re.search(r'\bfn\s+$', out[:m.start()])
+                       and not (model_has and not re.search(r'(?:\bself(?:\s*\.\s*\w+)*\s*\.|\bSelf\s*::)\s*$', out[:m.start()]))), None)
             if not mm:
                 break
             found = _find_helper(unit, rel, fname, qual)
@@ -1482,7 +1486,7 @@ def rule_R24_inline(unit, rel, text, ctx):
                 if re.search(r'\breturn\b', code):
                     raise Unsupported('R24: helper %s uses return' % name)
                 unit.rule_log.append({'rule': 'R24', 'before': 'early `if C { return V; }` of helper %s' % name, 'after': '`if C { V } else { rest }`', 'where': rel})
-            if re.search(r'(?<![\w])%s\s*\(' % re.escape(fname), code) and not qual:
+            if re.search(r'(?:(?<![\w.:])|\bself\s*\.\s*|\bSelf\s*::\s*)%s\s*\(' % re.escape(fname), code) and not qual:
                 raise Unsupported('R24: helper %s is recursive' % name)
             op = hsrc.index('(', re.compile(r'\bfn\s+%s\b' % re.escape(fname)).search(hsrc, it.start).end())
             cp = match_brace(hsrc, hmask, op)
@@ -1523,10 +1527,11 @@ def rule_R24_inline(unit, rel, text, ctx):
                         amp = '&mut '
                     flip = getattr(unit, 'inline_flip', False)
                     simple = re.match(r'^[A-Za-z_]\w*$', recv) is not None
-                    if recv == 'self':
-                        # the helper is a method of the same object: its `self` is the caller's `self` (the substitutions of the
-                        # block that hosts the call then apply to the inlined text as well)
-                        binds.append((None, None, None))
+                    if recv == 'self' or (re.match(r'^self(\.\w+)+$', recv) and getattr(unit, 'block_substs', None)):
+                        # the helper is a method of the same object (or of a field path of it, `self.inner.helper()`): its `self`
+                        # is the caller's `self` (resp. `self.inner`), and the substitutions of the block that hosts the call then
+                        # apply to the inlined text as well
+                        binds.append((None, None, None if recv == 'self' else recv))
                     elif recv.startswith('&') or (simple and not flip) or (not simple and flip):
                         # a plain variable is taken to hold a reference already (typed `&mut _` binding = reborrow)
                         binds.append(('vx_self', (amp.strip() + ' _') if amp else None, recv))
@@ -1569,6 +1574,18 @@ def rule_R24_inline(unit, rel, text, ctx):
                 else:
                     # the block that hosts the call renames parts of `self` (`self.sink.` => `sink.` ...): the same renamings
                     # apply to the helper's text, which talks about the same object
+                    path_ = next((b_[2] for b_ in binds if b_[0] is None and b_[2]), None)
+                    if path_:
+                        bmx_ = code_mask(body)
+                        pieces_ = []
+                        last_ = 0
+                        for m_ in re.finditer(r'(?<![\w.])self\b', body):
+                            if bmx_[m_.start()]:
+                                pieces_.append(body[last_:m_.start()])
+                                pieces_.append(path_)
+                                last_ = m_.end()
+                        pieces_.append(body[last_:])
+                        body = ''.join(pieces_)
                     for a_, b_, _opt in getattr(unit, 'block_substs', []) or []:
                         if '$' in a_ or 'self' not in a_:
                             continue
@@ -1958,6 +1975,7 @@ def _end_of_block_pos(body, mask, pos):
 def process_template(unit, tmpl_path, prelude_dir):
     with open(tmpl_path) as fh:
         lines = fh.read().split('\n')
+    unit.tmpl_text = getattr(unit, 'tmpl_text', '') + '\n'.join(l for l in lines if not l.strip().startswith('//@'))
     i = 0
     n = len(lines)
     while i < n:
